@@ -228,7 +228,7 @@ def gen_special_outs(seed):
     (duids spaced by a power of two). The suffix each of them gets must not depend on the interpreter run."""
     rng = rng_for(seed, "special_outs")
     return {"template": "special_outs", "profile": "special_outs", "depth": 1, "cds": ["sys"], "ios": [], "names": [],
-            "n": rng.choice([200, 300, 400]), "spacing": rng.choice([32, 64, 128]), "ovr": rng.choice(["x", "data", "q"]),
+            "n": rng.choice([200, 260, 320]), "spacing": rng.choice([32, 64]), "ovr": rng.choice(["x", "data", "q"]),
             "classes": []}
 
 
